@@ -71,7 +71,7 @@ enum Place {
 enum S {
     LetU8(&'static str, bool, E),
     LetAgg(&'static str, bool, Agg),
-    LetP(bool, E, E),
+    LetP(bool, E, E, E),
     LetQ(bool, Vec<E>),
     Assign(Place, E),
     OpAssign(Place, &'static str, E),
@@ -82,6 +82,8 @@ enum S {
     Match(usize, E, Vec<(Vec<S>, E)>),
     ForArr(&'static str, Vec<E>, Vec<S>),
     ForRange(&'static str, u8, u8, Vec<S>),
+    /// x = [k * (] (if c { stmts; e1 } else { stmts; e2 }) [& 15u8)];  -- a right-hand side with side effects (scalar variable on the left)
+    AssignFx(&'static str, Option<u8>, C, Vec<S>, E, Vec<S>, E),
 }
 
 #[derive(Clone, Debug)]
@@ -124,7 +126,7 @@ fn e_src(e: &E) -> String {
         E::Var(n) => n.to_string(),
         E::Idx(a, ix) => format!("{a}[{}]", ix_src(ix, 3)),
         E::TupF(t, i) => format!("{t}.{i}"),
-        E::Fld(i) => format!("p.{}", ["a", "b"][*i]),
+        E::Fld(i) => format!("p.{}", ["a", "b", "c"][*i]),
         E::QF(ix, i) => format!("q[{}].{i}", ix_src(ix, 2)),
         E::Bin(op, a, b) => format!("({} {op} {})", e_src(a), e_src(b)),
         E::AddLow(a, b) => format!("(({} & 15u8) + ({} & 15u8))", e_src(a), e_src(b)),
@@ -155,7 +157,7 @@ fn place_src(p: &Place) -> String {
         Place::Var(n) => n.to_string(),
         Place::Idx(a, ix) => format!("{a}[{}]", ix_src(ix, 3)),
         Place::TupF(t, i) => format!("{t}.{i}"),
-        Place::Fld(i) => format!("p.{}", ["a", "b"][*i]),
+        Place::Fld(i) => format!("p.{}", ["a", "b", "c"][*i]),
         Place::QF(ix, i) => format!("q[{}].{i}", ix_src(ix, 2)),
     }
 }
@@ -173,7 +175,7 @@ fn s_src(s: &S, ind: usize, acc: &str, out: &mut Vec<String>) {
     match s {
         S::LetU8(n, mu, e) => out.push(format!("{pad}let {}{n} = {};", m(mu), e_src(e))),
         S::LetAgg(n, mu, a) => out.push(format!("{pad}let {}{n} = {};", m(mu), agg_src(a, is_tuple_name(n)))),
-        S::LetP(mu, a, b) => out.push(format!("{pad}let {}p = P {{ a: {}, b: {} }};", m(mu), e_src(a), e_src(b))),
+        S::LetP(mu, a, b, c) => out.push(format!("{pad}let {}p = P {{ a: {}, b: {}, c: {} }};", m(mu), e_src(a), e_src(b), e_src(c))),
         S::LetQ(mu, es) => out.push(format!("{pad}let {}q = [({}, {}), ({}, {})];", m(mu), e_src(&es[0]), e_src(&es[1]), e_src(&es[2]), e_src(&es[3]))),
         S::Assign(p, e) => out.push(format!("{pad}{} = {};", place_src(p), e_src(e))),
         S::OpAssign(p, op, e) => out.push(format!("{pad}{} {op}= {};", place_src(p), e_src(e))),
@@ -210,6 +212,14 @@ fn s_src(s: &S, ind: usize, acc: &str, out: &mut Vec<String>) {
             }
             out.push(format!("{pad}}}"));
         }
+        S::AssignFx(x, k, c, ts, te, fs, fe) => {
+            let (pre, post) = match k { Some(k) => (format!("{k}u8 * ("), " & 15u8)".to_string()), None => (String::new(), String::new()) };
+            out.push(format!("{pad}{x} = {pre}(if {} {{", c_src(c)));
+            block_src(ts, te, ind, acc, out);
+            out.push(format!("{pad}}} else {{"));
+            block_src(fs, fe, ind, acc, out);
+            out.push(format!("{pad}}}){post};"));
+        }
         S::ForRange(v, lo, hi, body) => {
             out.push(format!("{pad}for {v} in {lo}u8..{hi}u8 {{"));
             for s in body {
@@ -220,10 +230,10 @@ fn s_src(s: &S, ind: usize, acc: &str, out: &mut Vec<String>) {
     }
 }
 
-const OUTPUTS: usize = 20;
+const OUTPUTS: usize = 21;
 
 pub fn program_src(p: &Program) -> String {
-    let mut out = vec![format!("const K: u8 = {K_VALUE}u8;"), "struct P { a: u8, b: u8 }".to_string()];
+    let mut out = vec![format!("const K: u8 = {K_VALUE}u8;"), "struct P { a: u8, b: u8, c: u8 }".to_string()];
     for (i, f) in p.helpers.iter().enumerate() {
         out.push(format!("fn f{i}(mut acc: u8, mut x: u8, mut arr: [u8; 3], mut t: (u8, u8)) -> u8 {{"));
         for s in &f.body {
@@ -235,14 +245,14 @@ pub fn program_src(p: &Program) -> String {
     out.push(format!("pub fn main(a0: u8, a1: u8, c: bool) -> ({}) {{", vec!["u8"; OUTPUTS].join(", ")));
     for l in [
         "let mut acc = 0u8;", "let mut x = a0;", "let mut y = a1;", "let mut z = a0 ^ a1;", "let mut arr = [a0, a1, 7u8];", "let mut brr = [a1, 9u8, a0];",
-        "let mut t = (a1, a0);", "let mut u = (3u8, a1);", "let mut p = P { a: a0, b: 3u8 };", "let mut q = [(a0, 1u8), (2u8, a1)];",
+        "let mut t = (a1, a0);", "let mut u = (3u8, a1);", "let mut p = P { a: a0, b: 3u8, c: a1 };", "let mut q = [(a0, 1u8), (2u8, a1)];",
     ] {
         out.push(format!("    {l}"));
     }
     for s in &p.main {
         s_src(s, 1, "acc", &mut out);
     }
-    out.push("    (acc, x, y, z, arr[0], arr[1], arr[2], brr[0], brr[1], brr[2], t.0, t.1, u.0, u.1, p.a, p.b, q[0].0, q[0].1, q[1].0, q[1].1)".to_string());
+    out.push("    (acc, x, y, z, arr[0], arr[1], arr[2], brr[0], brr[1], brr[2], t.0, t.1, u.0, u.1, p.a, p.b, p.c, q[0].0, q[0].1, q[1].0, q[1].1)".to_string());
     out.push("}".to_string());
     out.join("\n")
 }
@@ -385,8 +395,8 @@ impl Interp<'_> {
                 let v = self.agg(env, a);
                 env.last_mut().unwrap().insert(n, v);
             }
-            S::LetP(_, a, b) => {
-                let v = V::L(vec![V::U(self.e(env, a)), V::U(self.e(env, b))]);
+            S::LetP(_, a, b, c) => {
+                let v = V::L(vec![V::U(self.e(env, a)), V::U(self.e(env, b)), V::U(self.e(env, c))]);
                 env.last_mut().unwrap().insert("p", v);
             }
             S::LetQ(_, es) => {
@@ -436,6 +446,12 @@ impl Interp<'_> {
                     env.pop();
                 }
             }
+            S::AssignFx(x, k, c, ts, te, fs, fe) => {
+                // the right-hand side is evaluated ONCE (with its effects), then stored
+                let mut v = if self.c(env, c) { self.block(env, ts, te, acc) } else { self.block(env, fs, fe, acc) };
+                if let Some(k) = k { v = k * (v & 15); }
+                *lookup(env, x) = V::U(v);
+            }
             S::ForRange(v, lo, hi, body) => {
                 for x in *lo..*hi {
                     env.push(HashMap::new());
@@ -470,7 +486,7 @@ pub fn reference(p: &Program, a0: u8, a1: u8, flag: bool) -> Vec<u8> {
     main.insert("brr", V::L(vec![u(a1), u(9), u(a0)]));
     main.insert("t", V::L(vec![u(a1), u(a0)]));
     main.insert("u", V::L(vec![u(3), u(a1)]));
-    main.insert("p", V::L(vec![u(a0), u(3)]));
+    main.insert("p", V::L(vec![u(a0), u(3), u(a1)]));
     main.insert("q", V::L(vec![V::L(vec![u(a0), u(1)]), V::L(vec![u(2), u(a1)])]));
     let mut env = vec![globals(), main];
     for s in &p.main {
@@ -541,7 +557,7 @@ impl Gen<'_> {
                 let names = self.vis_of(&TUPS);
                 if names.is_empty() { E::Lit(6) } else { E::TupF(self.pick(&names), self.rng.below(2)) }
             }
-            5 => if self.is_vis("p").is_some() { E::Fld(self.rng.below(2)) } else { E::Lit(8) },
+            5 => if self.is_vis("p").is_some() { E::Fld(self.rng.below(3)) } else { E::Lit(8) },
             6 => if self.is_vis("q").is_some() { let ix = self.ix(2, d); E::QF(ix, self.rng.below(2)) } else { E::Lit(9) },
             7 | 8 => E::Bin(self.pick(&["^", "&", "|"]), Box::new(self.e(d + 1)), Box::new(self.e(d + 1))),
             9 => E::AddLow(Box::new(self.e(d + 1)), Box::new(self.e(d + 1))),
@@ -598,7 +614,7 @@ impl Gen<'_> {
                     let names = self.mut_of(&TUPS);
                     if !names.is_empty() { return Some(Place::TupF(self.pick(&names), self.rng.below(2))); }
                 }
-                4 => if self.is_vis("p") == Some(true) { return Some(Place::Fld(self.rng.below(2))); },
+                4 => if self.is_vis("p") == Some(true) { return Some(Place::Fld(self.rng.below(3))); },
                 _ => if self.is_vis("q") == Some(true) { let ix = self.ix(2, d); return Some(Place::QF(ix, self.rng.below(2))); },
             }
         }
@@ -627,8 +643,19 @@ impl Gen<'_> {
             return None;
         }
         self.budget -= 1;
-        let k = if d >= 3 { self.rng.below(11) } else { self.rng.below(17) };
+        let k = if d >= 3 { self.rng.below(11) } else { self.rng.below(19) };
         Some(match k {
+            17 | 18 => {
+                let mut names = self.mut_of(&U8S);
+                if self.is_vis("acc") == Some(true) { names.push("acc"); }
+                if names.is_empty() { return None; }
+                let x = self.pick(&names);
+                let mul = if self.rng.below(2) == 0 { Some(2 + self.rng.below(2) as u8) } else { None };
+                let c = self.c(d + 1, false);
+                let (ts, te) = self.body(d);
+                let (fs, fe) = self.body(d);
+                S::AssignFx(x, mul, c, ts, te, fs, fe)
+            }
             0 | 1 | 2 | 3 => { let p = self.place(d)?; S::Assign(p, self.e(d)) }
             4 => { let p = self.place(d)?; S::OpAssign(p, self.pick(&["^", "&", "|"]), self.e(d)) }
             5 | 6 => {
@@ -655,10 +682,10 @@ impl Gen<'_> {
                 S::AssignAgg(n, self.agg(tuple, d))
             }
             9 => {
-                let (a, b) = (self.e(d), self.e(d));
+                let (a, b, c) = (self.e(d), self.e(d), self.e(d));
                 let mu = self.rng.below(3) > 0;
                 self.declare("p", mu);
-                S::LetP(mu, a, b)
+                S::LetP(mu, a, b, c)
             }
             10 => {
                 let es = (0..4).map(|_| self.e(d + 1)).collect();
@@ -775,7 +802,7 @@ pub fn run_real(src: &str, a0: u8, a1: u8, flag: bool) -> Option<Result<(bool, V
     Some(Ok((out[0], vals)))
 }
 
-const NAMES: [&str; OUTPUTS] = ["acc", "x", "y", "z", "arr[0]", "arr[1]", "arr[2]", "brr[0]", "brr[1]", "brr[2]", "t.0", "t.1", "u.0", "u.1", "p.a", "p.b", "q[0].0", "q[0].1", "q[1].0", "q[1].1"];
+const NAMES: [&str; OUTPUTS] = ["acc", "x", "y", "z", "arr[0]", "arr[1]", "arr[2]", "brr[0]", "brr[1]", "brr[2]", "t.0", "t.1", "u.0", "u.1", "p.a", "p.b", "p.c", "q[0].0", "q[0].1", "q[1].0", "q[1].1"];
 
 /// Ok(true): checked, Ok(false): rejected by the compiler (not this property), Err: a difference
 pub fn check_program(p: &Program, inputs: &[(u8, u8, bool)]) -> Result<bool, String> {
@@ -821,6 +848,7 @@ fn shrink_list(ss: &[S]) -> Vec<Vec<S>> {
             S::If(_, _, t, _, f, _) => vec![t.clone(), f.clone()],
             S::Match(_, _, arms) => arms.iter().map(|a| a.0.clone()).collect(),
             S::ForArr(_, _, b) | S::ForRange(_, _, _, b) => vec![b.clone()],
+            S::AssignFx(_, _, _, t, _, f, _) => vec![t.clone(), f.clone()],
             _ => vec![],
         };
         for sub in subs {
@@ -833,6 +861,11 @@ fn shrink_list(ss: &[S]) -> Vec<Vec<S>> {
             S::If(k, c, t, te, f, fe) => {
                 let mut r: Vec<S> = shrink_list(t).into_iter().map(|t2| S::If(*k, c.clone(), t2, te.clone(), f.clone(), fe.clone())).collect();
                 r.extend(shrink_list(f).into_iter().map(|f2| S::If(*k, c.clone(), t.clone(), te.clone(), f2, fe.clone())));
+                r
+            }
+            S::AssignFx(x, k, c, t, te, f, fe) => {
+                let mut r: Vec<S> = shrink_list(t).into_iter().map(|t2| S::AssignFx(x, *k, c.clone(), t2, te.clone(), f.clone(), fe.clone())).collect();
+                r.extend(shrink_list(f).into_iter().map(|f2| S::AssignFx(x, *k, c.clone(), t.clone(), te.clone(), f2, fe.clone())));
                 r
             }
             S::ForArr(v, es, b) => shrink_list(b).into_iter().map(|b2| S::ForArr(v, es.clone(), b2)).collect(),
